@@ -181,3 +181,20 @@ Theorem C15_ibig_sub_forms_identical : forall w, 8 <= w -> forall o o' s0 x s1 y
     srepr_value w r' = signed s0 (repr_value w x) - signed s1 (repr_value w y) /\ snd r = snd r'.
 Proof. exact ibig_sub_forms_identical. Qed.
 Print Assumptions C15_ibig_sub_forms_identical.
+
+Theorem C15_rdiv_signed_fits_iff : forall n p x, 0 < n -> in_ty (TPrim true n) p = true -> x <> 0 ->
+  (in_ty (TPrim true n) (Z.quot p x) = true <-> ~ (p = - 2 ^ (n - 1) /\ x = -1)).
+Proof. exact rdiv_signed_fits_iff. Qed.
+Print Assumptions C15_rdiv_signed_fits_iff.
+
+Theorem C15_prim_divrem_forms : forall t pt x p,
+  (forall q r, divrem_spec x p = Ok (q, r) -> in_ty pt r = true) ->
+  prim_divrem_asis t pt x p = divrem_spec x p.
+Proof. exact prim_divrem_agrees. Qed.
+Print Assumptions C15_prim_divrem_forms.
+
+Theorem C15_float_div_ctx_agrees : forall B p m s1 e1 s2 e2,
+  dlen B s1 <= p + dlen B s2 ->
+  fdiv_ctx B p m s1 e1 s2 e2 = fdiv_op B p m s1 e1 s2 e2.
+Proof. exact float_div_ctx_agrees. Qed.
+Print Assumptions C15_float_div_ctx_agrees.
